@@ -123,6 +123,11 @@ class Translator:
             return self.subscript(e, cx)
         if isinstance(e, ast.Call):
             return self.call(e, cx)
+        if isinstance(e, ast.List) or (isinstance(e, ast.Tuple) and getattr(cx, 'want_seqlist', False)):
+            parts = [self.expr(x, cx) for x in e.elts]
+            if not all(p[1] == SEQ for p in parts):
+                raise Unsupported('list literal of non-bytes')
+            return '[' + '; '.join(p[0] for p in parts) + ']', 'seqlist'
         if isinstance(e, ast.Tuple):
             parts = [self.expr(x, cx) for x in e.elts]
             return '(' + ', '.join(p[0] for p in parts) + ')', ('tuple', tuple(p[1] for p in parts))
@@ -264,7 +269,18 @@ class Translator:
             # staticmethod via self / class name
             if isinstance(f.value, ast.Name) and f.value.id in ('self', 'cls') and f.attr in cx.funcs:
                 return self.known_call(cx.funcs[f.attr], args, cx)
+            if f.attr == 'join' and isinstance(f.value, ast.Constant) and f.value.value == b'' and len(args) == 1:
+                cx.want_seqlist = True
+                try:
+                    a, ta = self.expr(args[0], cx)
+                finally:
+                    cx.want_seqlist = False
+                if ta != 'seqlist':
+                    raise Unsupported('join of something that is not a list of bytes')
+                return f'(concat {a})', SEQ
             recv, tr = self.expr(f.value, cx)
+            if f.attr == 'to_bytes' and tr == BOOL:
+                recv, tr = self.as_int(recv, tr), INT
             if f.attr == 'to_bytes' and tr == INT and len(args) == 2:
                 n = None
                 if isinstance(args[0], ast.Constant):
@@ -496,6 +512,8 @@ class Translator:
             return 'bool'
         if ty == SEQ:
             return 'list Z'
+        if ty == 'seqlist':
+            return 'list (list Z)'
         if isinstance(ty, tuple) and ty[0] == 'tuple':
             return '(' + ' * '.join(self.coqty(t) for t in ty[1]) + ')'
         raise Unsupported(f'type {ty}')
